@@ -24,6 +24,8 @@ print(json.dumps(out))
 
 
 def run(ctx):
+    from harness import fidelity
+    fidelity.check(ctx, ['inner', 'cross', 'move', 'scale'])
     from shapepy import Point2D, JordanCurve, IntegrateShape
     rng, drv = ctx.rng, ctx.drv
     # ---- (1) Point2D storage
